@@ -154,31 +154,49 @@ def run_interner(prog):
             obs.append(bad(R, "no-forget:control", "", "positive control lost: no mem::forget / ManuallyDrop call matched anywhere in the workspace (the matcher would be vacuous)"))
         else:
             obs.append(ok(R, "no-forget", "", "no mem::forget / ManuallyDrop in the interner (matcher sees %d such calls elsewhere in the workspace)" % control))
-    # (3) both handle types give their reference back on drop
+    # (3)+(4) both handle types give their pool entry back on drop, exactly when only this handle and the pool hold the value:
+    # every call chain from Drop::drop to the removal from the pool passes the test strong_count <= 2 (however the code is split
+    # into helpers -- maybe_unpool / unpool today)
+    def threshold(f, b):
+        for u, v, (d, val) in f.facts_at(b):
+            r = rel_fact(d, val)
+            if r and contains(r[1], lambda x: x[0] == "call" and str(x[1]).endswith("strong_count")) and \
+                    ((r[0] == "Le" and r[2][:2] == ("const", 2)) or (r[0] == "Lt" and r[2][:2] == ("const", 3))):
+                return True
+        return False
+
+    def removal_paths(f, inherited, depth, seen):
+        """list of booleans, one per way of reaching a pool removal from f: was the threshold established on the way"""
+        out = []
+        hosts = [f] + [c for c in prog.fns.values() if c.kind == "Closure" and c.root == f.path]
+        for h in hosts:
+            for b, t in h.calls():
+                if h.is_cleanup(b) or b not in h.live_blocks:
+                    continue
+                c = t.get("res") or t.get("fn") or ""
+                okh = inherited or threshold(h, b)
+                if c.endswith("::remove") and "hash" in c.lower():
+                    out.append(okh)
+                elif depth > 0 and c.startswith(I) and c in prog.fns and c not in seen and prog.fns[c].kind != "Closure":
+                    out.extend(removal_paths(prog.fns[c], okh, depth - 1, seen | {c}))
+        return out
+
+    worst = None
     for ty in ("IStr", "IBytes"):
         f = prog.fn("<%s%s as core::ops::drop::Drop>::drop" % (I, ty))
         key = "%s:drop" % ty
         if f is None:
             obs.append(bad(R, key, "", "Drop for %s not found" % ty))
             continue
-        cs = [(t.get("res") or "") for b, t in f.calls()]
-        obs.append(ok(R, key, site(f), "Drop calls maybe_unpool(&self.0)") if I + "maybe_unpool" in cs else
-                   bad(R, key, site(f), "Drop for %s does not call maybe_unpool: values dropped to zero references stay in the pool" % ty))
-    # (4) maybe_unpool removes the entry when only this handle and the pool hold it
-    f = prog.fn(I + "maybe_unpool")
+        paths = removal_paths(f, False, 3, {f.path})
+        if not paths:
+            obs.append(bad(R, key, site(f), "Drop for %s never removes the value from the pool: values dropped to zero references stay pooled" % ty))
+        else:
+            obs.append(ok(R, key, site(f), "Drop reaches the pool removal (%d path(s))" % len(paths)))
+            worst = all(paths) if worst is None else (worst and all(paths))
     key = "maybe_unpool:threshold"
-    good = False
-    if f is not None:
-        # the condition under which unpool() is called, in canonical form: strong_count <= 2 (or < 3), however it is spelled
-        for b, t in f.calls():
-            if (t.get("res") or t.get("fn") or "").endswith("::unpool") and not f.is_cleanup(b):
-                for u, v, (d, val) in f.facts_at(b):
-                    r = rel_fact(d, val)
-                    if r and contains(r[1], lambda x: x[0] == "call" and x[1].endswith("strong_count")) and \
-                            ((r[0] == "Le" and r[2][:2] == ("const", 2)) or (r[0] == "Lt" and r[2][:2] == ("const", 3))):
-                        good = True
-    obs.append(ok(R, key, site(f) if f else "", "unpool when strong_count <= 2 (this handle + the pool)") if good else
-               bad(R, key, site(f) if f else "", "maybe_unpool does not unpool exactly when strong_count <= 2"))
+    obs.append(ok(R, key, "", "the pool entry is removed only when strong_count <= 2 (this handle + the pool)") if worst else
+               bad(R, key, "", "a handle's Drop can remove the pool entry without the test strong_count <= 2 (or never tests it)"))
     # (5) the refcount has exactly two writers: Inner::clone (+1) and Drop for Inner (-1)
     writers = sorted({cf.path for cf, b, t in prog.callers.get(I + "inner::InnerHeader::set_refcnt", [])})
     want = {I + "inner::Inner::clone", "<%sinner::Inner as core::clone::Clone>::clone" % I, "<%sinner::Inner as core::ops::drop::Drop>::drop" % I,
